@@ -31,10 +31,13 @@ Print Assumptions C11_injective_all_types.
 (* re-checked against the regenerated shapes on every run *)
 Theorem C11_schemas_agree : forallb agree gen_types = true.
 Proof. exact schemas_agree. Qed.
+Print Assumptions C11_schemas_agree.
 Theorem C11_layout_pinned : types_eqb gen_types golden_types = true.
 Proof. exact layout_pinned. Qed.
+Print Assumptions C11_layout_pinned.
 Theorem C11_irregular_pinned : strs_eqb gen_opaque golden_opaque = true.
 Proof. exact opaque_pinned. Qed.
+Print Assumptions C11_irregular_pinned.
 Theorem C11_fields_covered : uncovered = [].
 Proof. exact fields_covered. Qed.
 Print Assumptions C11_fields_covered.
@@ -42,6 +45,7 @@ Print Assumptions C11_fields_covered.
 (* the hand-modelled fragments satisfy the hypotheses of the generic theorem *)
 Theorem C11_v1currency_recognised : forall b rest, valid_v1cur b -> recog_v1cur (b ++ rest)%list = Some (b, rest).
 Proof. exact recog_v1cur_ok. Qed.
+Print Assumptions C11_v1currency_recognised.
 Theorem C11_v1siafundoutput_recognised : forall b rest, valid_v1sfo b -> recog_v1sfo (b ++ rest)%list = Some (b, rest).
 Proof. exact recog_v1sfo_ok. Qed.
 Print Assumptions C11_v1siafundoutput_recognised.
